@@ -83,6 +83,16 @@ func c04Commands(kind string) [][]string {
 			{"SET", "kz", "b", "POINT", "3", "4"},
 			{"SET", "kz", "\x00lead", "STRING", "\x00"},
 		}
+	case "benign":
+		// a command that fails harmlessly on replay ("id not found", as a rewrite race
+		// leaves behind) is spliced in after the second command by c04BuildLog
+		return [][]string{
+			{"SET", "kf", "a", "FIELD", "f", "1", "POINT", "1", "2"},
+			{"SET", "kf", "b", "POINT", "3", "4"},
+			{"SET", "kf", "c", "STRING", "after the failing command"},
+			{"FSET", "kf", "a", "f", "2"},
+			{"SET", "kf", "d", "POINT", "5", "6"},
+		}
 	case "many":
 		var out [][]string
 		for i := 0; i < 2600; i++ {
@@ -165,6 +175,12 @@ func c04BuildLog(job *Job, kind string) *c04Log {
 	})
 	if x.Err != "" || len(data) == 0 {
 		panic("c04: cannot generate log " + kind + ": " + x.Err)
+	}
+	if kind == "benign" {
+		ends := c04Boundaries(data)
+		at := ends[1]
+		data = append(append(append([]byte{}, data[:at]...), respCmd("FSET", "kf", "no-such-id", "f", "9")...), data[at:]...)
+		gen = map[int]string{} // sizes have shifted: differential oracles only
 	}
 	return &c04Log{Name: kind, Data: data, Ends: c04Boundaries(data), dumps: map[int]string{}, gen: gen}
 }
@@ -326,7 +342,7 @@ func checkC04(job *Job, res *Result) {
 	res.Assumptions = append(res.Assumptions,
 		"a tear is a truncation at a byte offset (a crash during an append); zero padding is a run of NUL bytes at a command boundary",
 		"reference state for an offset = state of a real server started on the log cut at the preceding command boundary (differential, no hand-written expectation)")
-	kinds := []string{"kinds", "binary", "large", "multiple", "nulblock", "many"}
+	kinds := []string{"kinds", "binary", "large", "multiple", "nulblock", "many", "benign"}
 	thorough := job.Tier == "thorough"
 	caseNo := 0
 	mine := func() bool {
